@@ -18,6 +18,9 @@ static std::string mname(const MethodRow& m) { return std::string(m.iname) + "::
 // one call on the loopback transport; returns false on violation
 static bool loop_call(const MethodRow& m, Wire& wire, Client& cl, Rng& r, const std::string& cd, uint64_t* hash_out) {
   size_t log0 = hlog().size(); uint64_t disp0 = wire.dispatches; size_t req0 = wire.req.size(), rep0 = wire.rep.size();
+  // one call in eight: the reply direction has room for only a few more bytes (the reply write may fail)
+  bool squeezed = m.bound && r.below(8) == 0; size_t room = squeezed ? (size_t)r.below(12) : 0;
+  if (squeezed) wire.rep_cap = wire.rep.size() + room;
   CallResult cr = m.invoke(cl, r);
   if (wire.pending) wire.run_server();                    // nothing was read back by the client: let the server see the request now
   size_t nlog = hlog().size() - log0; size_t req_bytes = wire.req.size() - req0, rep_bytes = wire.rep.size() - rep0;
@@ -31,6 +34,20 @@ static bool loop_call(const MethodRow& m, Wire& wire, Client& cl, Rng& r, const 
     if (da.cat != Cat::OK || ds.consumed + da.consumed != req_bytes) { rep().violation("C14:request-arguments", fmt("%s: the request is not selector + argument tuple (reference decoder: %s, %zu of %zu bytes)", who.c_str(), catname(da.cat), ds.consumed + da.consumed, req_bytes), cd); return false; }
     if (canon_args(m, av.kids) != canon_args(m, cr.args)) { rep().violation("C14:request-argument-values", fmt("%s: the argument tuple on the wire differs from what the caller passed", who.c_str()), cd); return false; } }
   if (wire.dispatches - disp0 != 1) { rep().violation("C14:dispatch-count", fmt("%s: the server dispatched %" PRIu64 " times for one call", who.c_str(), wire.dispatches - disp0), cd); return false; }
+  if (squeezed) {
+    // expected reply size from the reference encoder; if it does not fit, the dispatcher must not claim success and the
+    // caller must not get a value; either way "success" implies exactly one complete reply
+    Sch rs0 = m.ret_schema(); Enc re; RefEncode(rs0, m.expected_ret(cr.args, m.iface, m.method), re);
+    rep().count("c14_calls_with_bounded_reply_capacity");
+    if (re.out.size() > room) {
+      rep().count("c14_reply_write_failures_injected");
+      if (wire.last_ok) { rep().violation("C14:dispatch-success-without-complete-reply", fmt("%s: the reply (%zu bytes) did not fit the %zu bytes of room but the dispatcher reported success with %zu reply bytes written", who.c_str(), re.out.size(), room, rep_bytes), cd); return false; }
+      if (cr.ok) { rep().violation("C14:invoke-success-without-complete-reply", fmt("%s: Invoke reported success although the reply could not be written", who.c_str()), cd); return false; }
+      if (nlog != 1) { rep().violation("C14:handler-invocations:squeezed", fmt("%s: %zu handler invocations", who.c_str(), nlog), cd); return false; }
+      wire.reset(); return true;
+    }
+    wire.rep_cap = SIZE_MAX;
+  }
   if (m.bound) {
     if (nlog != 1) { rep().violation(fmt("C14:handler-invocations:%zu", nlog > 2 ? (size_t)2 : nlog), fmt("%s: %zu handler invocations for one call", who.c_str(), nlog), cd); return false; }
     const LogEntry& e = hlog().back();
@@ -83,6 +100,41 @@ static void raw_request(const MethodRow& anyrow, const std::vector<MethodRow*>& 
   }
 }
 
+// ---- handlers that return a reference into their (decoded) arguments: legal, the reply must carry the referenced value
+struct EchoIf : nop::Interface<EchoIf> {
+  NOP_INTERFACE("verif.rpc.Echo");
+  NOP_METHOD(Echo, std::string(const std::string&));
+  NOP_METHOD(Pick, std::vector<std::string>(const std::vector<std::string>&, int));
+  NOP_METHOD(First, std::string(const std::pair<std::string, std::string>&));
+  NOP_INTERFACE_API(Echo, Pick, First);
+};
+struct EchoSvc { const std::vector<std::string>& OnPick(const std::vector<std::string>& v, int) { return v; } };
+static const std::string& echo_fn(const std::string& s) { return s; }
+static void echo_cases() {
+  if (!mine(11) && args().only_type.empty()) return;
+  if (!args().only_type.empty() && args().only_type != "EchoIf") return;
+  Wire wire; Server sv(&wire); Client cl(&wire);
+  auto bindings = nop::BindInterface<EchoSvc*>(EchoIf::Echo::Bind([](EchoSvc*, const std::string& s) -> const std::string& { return s; }), EchoIf::Pick::Bind(&EchoSvc::OnPick),
+                                               EchoIf::First::Bind([](EchoSvc*, const std::pair<std::string, std::string>& p) -> const std::string& { return p.first; }));
+  EchoSvc svc; wire.serve = [&]() { return bindings(&sv.receiver, &svc); };
+  (void)&echo_fn;
+  Rng r = case_rng("EchoIf", 0, 3);
+  for (int i = 0; i < 200; i++) {
+    std::string cd = case_desc("EchoIf", i, "echo"); set_current("%s", cd.c_str());
+    size_t n = i < 40 ? (size_t)i : 10 + r.below(400); std::string s(n, 'a'); for (auto& ch : s) ch = (char)('a' + r.below(26));
+    auto e = EchoIf::Echo::Invoke(&cl.sender, s); if (wire.pending) wire.run_server();
+    rep().count("c14_reference_returning_handler_calls"); rep().note(hash_combine(hash_str("echo"), hash_str(s)), true);
+    if (!e || e.get() != s) rep().violation("C14:return-value:reference-returning-handler", fmt("Echo(%zu chars): Invoke returned %s, the handler returned its argument", n, e ? "a different string" : errname(e.error())), cd);
+    std::vector<std::string> v; for (size_t k = 0; k < 1 + r.below(4); k++) v.push_back(std::string(5 + r.below(60), (char)('A' + k)));
+    auto p = EchoIf::Pick::Invoke(&cl.sender, v, 3); if (wire.pending) wire.run_server();
+    if (!p || p.get() != v) rep().violation("C14:return-value:reference-returning-handler", "Pick: Invoke did not return the handler's argument vector", cd);
+    auto f = EchoIf::First::Invoke(&cl.sender, std::make_pair(s, std::string("second"))); if (wire.pending) wire.run_server();
+    if (!f || f.get() != s) rep().violation("C14:return-value:reference-returning-handler", "First: Invoke did not return the referenced pair member", cd);
+    if (wire.req_pos != wire.req.size() || wire.rep_pos != wire.rep.size()) { rep().violation("C14:request-not-consumed", "echo interface out of frame", cd); break; }
+  }
+  clear_current();
+}
+
 int vf::engine_main() {
   set_watchdog(120);
   g_rows = rpc_methods();
@@ -90,6 +142,7 @@ int vf::engine_main() {
   std::map<int, std::vector<MethodRow*>> by_iface; for (auto& r : g_rows) by_iface[r.iface].push_back(&r);
   rep().counters["programs_interfaces"] = args().worker == 0 ? by_iface.size() : 0; rep().counters["programs_methods"] = args().worker == 0 ? g_rows.size() : 0;
   int nseq = th ? 400 : 40;
+  echo_cases();
   for (auto& kv : by_iface) {
     auto& rows = kv.second; const MethodRow& first = *rows[0];
     std::string iname = first.iname;
